@@ -18,12 +18,26 @@ func cpsToString(cps []int) string {
 func init() {
 	register("validate", func(req json.RawMessage) (any, error) {
 		var q struct {
-			S []int `json:"s"`
+			S    []int `json:"s"`
+			Only *int  `json:"only"`
 		}
 		if err := json.Unmarshal(req, &q); err != nil {
 			return nil, err
 		}
 		s := cpsToString(q.S)
+		if q.Only != nil {
+			// one validator only (C13: the order in which the validators are first used in a process must not matter)
+			fs := []func(string) bool{validation.ValidateObject, validation.ValidateObjectID, validation.ValidateRelation,
+				validation.ValidateUserSet, validation.ValidateUserObject, validation.ValidateUserWildcard, validation.ValidateUser,
+				validation.ValidateRelationshipCondition, validation.ValidateType}
+			if *q.Only < 0 || *q.Only >= len(fs) {
+				return nil, nil
+			}
+			if fs[*q.Only](s) {
+				return []int{1}, nil
+			}
+			return []int{0}, nil
+		}
 		b := func(x bool) int {
 			if x {
 				return 1
